@@ -8,5 +8,7 @@ CONSTANTS
   Routes = {"inst"}
   Layouts = {"flat"}
   Slim = FALSE
+  HistKinds = {}
+  MaxLookups = 0
 INVARIANT PinnedFollowsDocs
 CHECK_DEADLOCK FALSE
